@@ -56,8 +56,9 @@ theorem decodesAs_all (x : Spec.Json) : DecodesAs x := by
       cases r0 with
       | none => simp [NumRes.toView] at hv
       | int0 => simp only [JV.ofNum, JV.toView, hv]; rfl
+      | fzero => simp only [JV.ofNum, JV.toView, hv]; rfl
       | special s => simp only [JV.ofNum, JV.toView, hv]; rfl
-      | num a b c => simp only [JV.ofNum, JV.toView, hv]; rfl
+      | num t => simp only [JV.ofNum, JV.toView, hv]; rfl
   · -- string
     intro s _ pos off data fuel e _ _ hb hsl _ he _
     have henc : Spec.encValue pos (.str s) = (0, s) := rfl
